@@ -118,6 +118,24 @@ var c15Bases = map[string]string{
         operation: BITSNOTSET
         value: 0x30
 `,
+	// a group that ends with a conditional entry, followed by a group with an unconditional rule for the same syscall
+	"conditional-then-later-group": `seccomp:
+  default_action: allow
+  syscalls:
+  - action: allow
+    names:
+    - getpgrp
+    names_with_args:
+    - name: getppid
+      arguments:
+      - argument: 0
+        operation: Equal
+        value: 1
+  - action: errno
+    names:
+    - getppid
+    - getuid
+`,
 	"kill": `seccomp:
   default_action: allow
   syscalls:
@@ -197,6 +215,9 @@ type c15Case struct {
 	ExtraArgs []string `json:"extra_args,omitempty"`
 	Unpriv    bool     `json:"unprivileged"`
 	BadTarget bool     `json:"nonexistent_target"`
+	// nested run: an outer sandbox whose policy answers errno to seccomp(2) starts the sandbox under test, for which the
+	// kernel then refuses the filter
+	OuterDeniesSeccomp bool `json:"outer_denies_seccomp,omitempty"`
 }
 
 func checkC15(tier, replay string) int {
@@ -236,6 +257,8 @@ func checkC15(tier, replay string) int {
 			cases = append(cases, c15Case{Label: name + "/whole/unpriv-no-nnp", File: text, FileKind: "content", Unpriv: true, ExtraArgs: []string{"-no-new-privs=false"}})
 			cases = append(cases, c15Case{Label: name + "/whole/no-nnp", File: text, FileKind: "content", ExtraArgs: []string{"-no-new-privs=false"}})
 			cases = append(cases, c15Case{Label: name + "/whole/bad-target", File: text, FileKind: "content", BadTarget: true})
+			cases = append(cases, c15Case{Label: name + "/whole/seccomp-denied-by-outer-sandbox", File: text, FileKind: "content", OuterDeniesSeccomp: true})
+			cases = append(cases, c15Case{Label: name + "/whole/seccomp-denied-by-outer-sandbox/no-nnp", File: text, FileKind: "content", OuterDeniesSeccomp: true, ExtraArgs: []string{"-no-new-privs=false"}})
 			// every line prefix; every byte prefix (thorough) or every byte prefix inside the first and last rule (quick)
 			lines := strings.SplitAfter(text, "\n")
 			off := 0
@@ -354,6 +377,8 @@ func checkC15(tier, replay string) int {
 				mustRefuse = "kernel refuses (program too long)"
 			} else if c.Unpriv && len(c.ExtraArgs) > 0 {
 				mustRefuse = "kernel refuses (no privilege, no no_new_privs)"
+			} else if c.OuterDeniesSeccomp {
+				mustRefuse = "kernel refuses (seccomp(2) answers EPERM under the outer sandbox)"
 			} else if d := refsem.Decide(a, p, cbpf.Event{Nr: mustNum(a, "execve"), Arch: a.ID}); d != refsem.RetAllow && d != refsem.RetLog {
 				// the sandbox starts the target with execve after the filter is in force: a policy that does not allow
 				// execve cannot start anything, and the command must not work around its own policy
@@ -388,6 +413,11 @@ func checkC15(tier, replay string) int {
 		}
 		argv := append([]string{sandbox, "-policy", pol}, c.ExtraArgs...)
 		argv = append(argv, target...)
+		if c.OuterDeniesSeccomp {
+			outer := filepath.Join(dir, "outer.yml")
+			os.WriteFile(outer, []byte("seccomp:\n  default_action: allow\n  syscalls:\n  - action: errno\n    names:\n    - seccomp\n"), 0o644)
+			argv = append([]string{sandbox, "-policy", outer}, argv...)
+		}
 		if c.Unpriv {
 			argv = append([]string{"setpriv", "--reuid", "65534", "--regid", "65534", "--clear-groups"}, argv...)
 		}
@@ -470,7 +500,7 @@ func checkC15(tier, replay string) int {
 	ctx.Cov["runs_in_which_the_target_started"] = ranTarget
 	ctx.Cov["runs_that_must_be_refused"] = refused
 	ctx.Cov["probe_events_observed_by_the_target"] = probes
-	ctx.Cov["rule"] = "the built cmd/sandbox binary is run with a probe target (a separate program that first appends a marker line, then issues probe syscalls for every partition cell of the policy) on: 9 base policy files (one spelling all eight operations and the actions in non-canonical letter case) (incl. two under which execve is not allowed: no target can be started) whole (root / uid 65534 / with -no-new-privs=false / non-existent target), every line prefix and every byte prefix inside the first and last rule (thorough: every byte prefix), 13 defect kinds per base plus an unknown name at every position where a syscall name stands, JSON renderings with operands that need all 64 bits (unknown action/default/syscall/operation, wrong key, no syscalls, non-YAML, tab indentation, empty, argument 6 / -1, non-numeric value, duplicate name), a policy compiling to > 4096 instructions, a missing file and a directory; the same bytes are loaded by the harness through ucfg: if that fails, the policy is invalid or the kernel must refuse, the run must exit non-zero with no marker; otherwise the marker exists and the target's observations equal the reference decisions of the policy the file denotes"
+	ctx.Cov["rule"] = "the built cmd/sandbox binary is run with a probe target (a separate program that first appends a marker line, then issues probe syscalls for every partition cell of the policy) on: 10 base policy files (one spelling all eight operations and the actions in non-canonical letter case, one whose first group ends with a conditional entry for a syscall the second group names unconditionally) (incl. two under which execve is not allowed: no target can be started) whole (root / uid 65534 / with -no-new-privs=false / non-existent target / nested inside an outer sandbox whose policy answers errno to seccomp(2), so that the kernel refuses the filter), every line prefix and every byte prefix inside the first and last rule (thorough: every byte prefix), 13 defect kinds per base plus an unknown name at every position where a syscall name stands, JSON renderings with operands that need all 64 bits (unknown action/default/syscall/operation, wrong key, no syscalls, non-YAML, tab indentation, empty, argument 6 / -1, non-numeric value, duplicate name), a policy compiling to > 4096 instructions, a missing file and a directory; the same bytes are loaded by the harness through ucfg: if that fails, the policy is invalid or the kernel must refuse, the run must exit non-zero with no marker; otherwise the marker exists and the target's observations equal the reference decisions of the policy the file denotes"
 	ctx.Assumptions = []string{"a truncated file that still parses is a different valid policy and is judged as such", "probe syscalls ignore arguments", "fault points before exec are realised through inputs (file defects, kernel refusals), not by interrupting the sandbox process"}
 	if replay != "" {
 		return finishReplay(ctx)
